@@ -220,10 +220,11 @@ func isASCII(s string) bool {
 	return true
 }
 
-// modelValid: the Gallina models of lowercase/uppercase (and of the plugin built on ToUpper)
+// asciiValid (the limit before the Unicode registry; now only used to keep the sampling of the
+// older families unchanged): the ASCII Gallina models of lowercase/uppercase (and of the plugin built on ToUpper)
 // are byte-exact on ASCII input only; a (chain, input) pair is compared with the model only if
 // every value reaching one of them is ASCII (computed with the real functions, uncached).
-func modelValid(names []string, in string) bool {
+func asciiValid(names []string, in string) bool {
 	v := in
 	for _, n := range names {
 		ln := strings.ToLower(n)
@@ -240,6 +241,10 @@ func modelValid(names []string, in string) bool {
 	}
 	return true
 }
+
+// modelValid: since CorrC12 evaluates CaseMap.apply_tu (strings.ToLower/ToUpper on arbitrary bytes),
+// every value is compared with the model.
+func modelValid(names []string, in string) bool { return true }
 
 // effective chain of a t: argument list (t:none clears)
 func effective(ts []string) []string {
@@ -343,6 +348,7 @@ func (rn *runner) runDirect(cj caseJSON) {
 		kid[i] = ptrs[p]
 	}
 	cache := corazawaf.VerifC12NewCache()
+	nonASCII := false // a non-ASCII value reaches lowercase/uppercase: compared through the Unicode registry
 	var callTerms, obsTerms []string
 	var valPool []string
 	valIdx := map[string]int{}
@@ -366,9 +372,8 @@ func (rn *runner) runDirect(cj caseJSON) {
 		}
 		val := unhex(c.Value)
 		for _, rj := range cj.Rules {
-			if !modelValid(effective(rj.T), val) {
-				rn.res.InputDistribution["direct_outside_model"]++
-				return
+			if !asciiValid(effective(rj.T), val) {
+				nonASCII = true
 			}
 		}
 		md := &corazarules.MatchData{Variable_: variables.RuleVariable(c.Var), Key_: pool[c.Key], Value_: val}
@@ -405,10 +410,14 @@ func (rn *runner) runDirect(cj caseJSON) {
 	// the full dump of the real cache is compared in every case of the thorough tier, in one of
 	// three in the quick tier (its size always)
 	dumpTerm := "(inr " + nat(len(dump)) + ")"
-	if rn.cfg.Thorough() || rn.cfg.Replay != "" || cj.Calls == nil || rn.nDirect%3 == 0 {
+	if rn.cfg.Thorough() || rn.cfg.Replay != "" || cj.Calls == nil || nonASCII || rn.nDirect%3 == 0 {
 		dumpTerm = "(inl " + vh.List(dumpTerms) + ")"
 	}
-	rn.nDirect++
+	if nonASCII {
+		rn.res.InputDistribution["direct_non_ascii_case_map"]++
+	} else {
+		rn.nDirect++
+	}
 	rn.emit(fmt.Sprintf("CD %s %s %s %s %s", vh.List(ruleTerms), vh.HxList(valPool), vh.List(callTerms), vh.List(obsTerms), dumpTerm), cj)
 	rn.res.InputDistribution["direct"]++
 	rn.res.InputDistribution[fmt.Sprintf("direct_calls_%s", bucket(len(cj.Calls)))]++
@@ -726,7 +735,7 @@ func (rn *runner) runWAF(cj caseJSON) {
 			Errs  [][]int  `json:"errs"`
 		}
 		var pj []perJ
-		valid := true
+		valid, nonASCII := true, false
 		for k, r := range cj.Rules {
 			ro := pObs.Rules[r.ID]
 			var seen []string
@@ -747,16 +756,16 @@ func (rn *runner) runWAF(cj caseJSON) {
 			}
 			for _, o := range recLog[k] {
 				j.Origs = append(j.Origs, hexs(o))
-				if !modelValid(effective(r.T), o) {
-					valid = false
+				if !asciiValid(effective(r.T), o) {
+					nonASCII = true
 				}
 			}
 			pj = append(pj, j)
 			per = append(per, fmt.Sprintf("(%s, %s, %s)", vh.HxList(recLog[k]), vh.HxList(seen), vh.List(errs)))
 			sig += canonSeen(ro) + ";"
 		}
-		if !valid {
-			rn.res.InputDistribution["waf_outside_model"]++
+		if nonASCII {
+			rn.res.InputDistribution["waf_non_ascii_case_map"]++
 		}
 		if modelled && valid && !emitted[sig] {
 			emitted[sig] = true
@@ -786,14 +795,22 @@ func (rn *runner) runWAF(cj caseJSON) {
 						}
 					}
 				}
-				var ents []string
+				var ents, extra []string
 				for _, e := range d {
 					names := chainOf(e.ChainID)
 					chain, ok := coqChain(names)
-					if !ok || !modelValid(names, e.Input) {
+					if !ok {
 						continue
 					}
-					ents = append(ents, fmt.Sprintf("(%s, %s, %s, %s)", chain, vh.HxS(e.Input), vh.HxS(e.Output), natList(errCodes(e.Errs))))
+					t := fmt.Sprintf("(%s, %s, %s, %s)", chain, vh.HxS(e.Input), vh.HxS(e.Output), natList(errCodes(e.Errs)))
+					if asciiValid(names, e.Input) {
+						ents = append(ents, t)
+					} else if len(extra) < 4 {
+						extra = append(extra, t) // through the Unicode case maps
+					}
+				}
+				if len(ents) == 0 {
+					ents, extra = extra, nil
 				}
 				if len(ents) == 0 {
 					continue
@@ -807,6 +824,7 @@ func (rn *runner) runWAF(cj caseJSON) {
 					}
 					ents = sm
 				}
+				ents = append(ents, extra...)
 				c := cj
 				c.Part = fmt.Sprintf("cache-dump after phase %d", ph)
 				c.Observed = len(ents)
@@ -887,6 +905,16 @@ func smallIDs(ids []int) []int {
 // ---------------------------------------------------------------------------------------
 
 var valueSeeds = []string{"ONE", "one", "One", "TWO", "two", " x ", "x", "Hello World", "6F6e65", "4f4E45", "zz", "a%41b", "A+B", "/*c*/d", "SGVsbG8=", "a\\x41", "  spaced\tout ", "", "0", "%6f%6E%65"}
+
+// values for the Unicode case maps: mapped runes of 2, 3 and 4 bytes, runes whose image has another
+// length (U+0130, U+212A, U+017F, U+2C65), title case, and invalid UTF-8 (lone bytes, truncated and
+// overlong sequences, a surrogate) which strings.ToLower/ToUpper rewrite to U+FFFD
+var uniValues = []string{"\u00c0\u00c9\u00ce", "\u00e0\u00e9\u00ee", "stra\u00dfe", "\u0391\u0392\u0393 \u03b4\u03c2", "\u0130stanbul", "\u01c5x", "\u212aelvin", "\u017ftop",
+	"\u2c65\u023a", "\U00010400\U00010428", "\xff\xfe", "a\xc3", "\xc3\x28", "ab\xe2\x82", "\xed\xa0\x80", "ABC\x80def", "\xc0\xaf", "\xf0\x9f", "\u00c0", "\u00e0", "ONE", "one"}
+var uniQueries = []string{"a=%C3%80%C3%89&a=%C3%A0%C3%A9&b=%FF%FE", "a=%C4%B0stanbul&a=istanbul&b=%E2%84%AAelvin", "a=ABC%80def&a=abc%80DEF&b=%C3%28",
+	"a=%CE%91%CE%92&a=%CE%B1%CE%B2&b=%F0%90%90%80", "a=stra%C3%9Fe&a=STRASSE&b=%ED%A0%80x", "a=%C0%AF&a=%E2%82&b=%C5%BFtop&c=%C7%85"}
+var uniBodies = []string{"", "a=%C3%80%FF&d=%CE%A3", "q=%E2%B1%A5&a=%C3%A0"}
+var uniRespBodies = []string{"R\u00c9SUM\u00c9 \xff body", "\u0391\u0392 \xc3", "", "plain"}
 
 func genChainPool(r *rand.Rand) []string {
 	n := 2 + r.Intn(4)
@@ -1220,6 +1248,32 @@ func Run(cfg vh.Config) (*vh.Result, error) {
 		for i := 0; i < cfg.Pick(200, 2000); i++ {
 			rn.runIntern(genIntern(rng))
 		}
+		// growth 2: non-ASCII and invalid-UTF-8 values reaching t:lowercase / t:uppercase, compared with the
+		// Unicode registry (CaseMap.apply_tu). Own PRNG stream, appended after the older families.
+		g2 := vh.Rng(cfg.Seed, "C12-growth2")
+		sv, sq, sb, sr := valueSeeds, queries, bodies, respBodies
+		valueSeeds, queries, bodies, respBodies = uniValues, uniQueries, uniBodies, uniRespBodies
+		caseMaps := func(c *caseJSON) {
+			for i := range c.Rules {
+				if n := len(c.Rules[i].T); n > 0 && g2.Intn(2) == 0 {
+					c.Rules[i].T[g2.Intn(n)] = []string{"lowercase", "uppercase", "lowercase", bangName}[g2.Intn(4)]
+				}
+			}
+		}
+		for i := 0; i < cfg.Pick(120, 2000); i++ {
+			c := genDirect(g2)
+			caseMaps(&c)
+			rn.runDirect(c)
+			res.InputDistribution["growth2_direct"]++
+		}
+		for i := 0; i < cfg.Pick(50, 600); i++ {
+			c := genWAF(g2)
+			caseMaps(&c)
+			c.Reps = 4
+			rn.runWAF(c)
+			res.InputDistribution["growth2_waf"]++
+		}
+		valueSeeds, queries, bodies, respBodies = sv, sq, sb, sr
 	}
 	res.OracleEvaluations = rn.oracleEvals
 	res.DistinctNontrivial = rn.nontrivial
@@ -1232,8 +1286,8 @@ func Run(cfg vh.Config) (*vh.Result, error) {
 			j = len(rn.terms)
 		}
 		info, err := vh.WriteShard(cfg.OutDir, vh.Shard{
-			Name: fmt.Sprintf("C12_%d", k), Imports: "From Verif Require Import Base Transform TCache CorrC12.",
-			CaseType: "CorrC12.case", MismatchF: "CorrC12.mismatches", Terms: rn.terms[i:j], Cases: rn.cases[i:j],
+			Name: fmt.Sprintf("C12_%d", k), Imports: "From Verif Require Import Base Transform TCache CorrC12.\nFrom VerifGen Require Import FactsC14.",
+			CaseType: "CorrC12.case", MismatchF: "CorrC12.mismatches FactsC14.lower_table FactsC14.upper_table", Terms: rn.terms[i:j], Cases: rn.cases[i:j],
 			Prelude: "Open Scope nat_scope.",
 		})
 		if err != nil {
